@@ -429,3 +429,39 @@ pub fn c14_dual_scaling_is_mu_times_hessian() {
     }
     kani::cover!(mu.0 == 3 && h[1].0 == 2);
 }
+
+// ------------------------------------------------------------------------------------------
+// gradient_primal of the power cone: the Newton-Raphson scalar solve (a float iteration, outside) is replaced
+// by an ARBITRARY non-negative result; what is decided, bit-precisely at f64, is how the three components are
+// assembled from it: g3 carries the sign of s3 and g1, g2 are the documented expressions OF THAT g3, so that
+// <s, g> = -3 whatever the scalar solve returned.  Factors are powers of two (cheap products, exact).
+// ------------------------------------------------------------------------------------------
+pub fn stub_newton_raphson_powcone<T: clarabel::algebra::FloatT>(_s3: T, _phi: T, _alpha: T) -> T {
+    let k: i32 = kani::any();
+    kani::assume(k >= -20 && k <= 20);
+    T::from_f64(f64::from_bits(((1023 + k) as u64) << 52)).unwrap()
+}
+
+fn p2(lo: i32, hi: i32) -> f64 {
+    let k: i32 = kani::any();
+    kani::assume(k >= lo && k <= hi);
+    f64::from_bits(((1023 + k) as u64) << 52)
+}
+
+#[kani::proof]
+#[kani::unwind(4)]
+#[kani::stub(clarabel::solver::core::cones::powcone::_newton_raphson_powcone, stub_newton_raphson_powcone)]
+pub fn c14_pow_gradient_primal_assembly() {
+    let alpha = p2(-3, -1); // 1/8, 1/4, 1/2
+    let c = PowerCone::<f64>::new(alpha);
+    let s3mag = p2(-10, 10);
+    let neg: bool = kani::any();
+    let s = [p2(-10, 10), p2(-10, 10), if neg { -s3mag } else { s3mag }];
+    let g = ph::gradient_primal(&c, &s);
+    assert!(g[2] != 0.0 && (g[2] < 0.0) == neg, "g3_carries_the_sign_of_s3");
+    assert!(g[0] == -(alpha * g[2] * s[2] + 1.0 + alpha) / s[0], "g1_is_assembled_from_the_signed_g3");
+    assert!(g[1] == -((1.0 - alpha) * g[2] * s[2] + 2.0 - alpha) / s[1], "g2_is_assembled_from_the_signed_g3");
+    assert!(g[0] < 0.0 && g[1] < 0.0, "g1_g2_negative_for_interior_points");
+    kani::cover!(neg && g[2] == -4.0, "negative third component");
+    kani::cover!(!neg && s[0] == 8.0, "positive third component");
+}
